@@ -459,3 +459,91 @@ def r_idrange(db, rep):
                          l, r, count, (" starting at %d" % first) if count else "", "none" if not want else "%d starting at %d" % (want, l),
                          "an empty prefix / no-match result produces a phantom ID" if not want else "the ID range is shifted or truncated"), c.qn)
             return
+
+
+SHRINKERS = ("erase", "pop_back", "pop_front", "clear", "resize", "shrink_to_fit")
+
+
+@rule("R-STALESIZE", 2, "a bound that an object keeps (a field assigned from container.size()) is not made stale: no path from the "
+                        "assignment shrinks the container (erase / pop_back / clear / resize) without the bound being taken again")
+def r_stalesize(db, rep):
+    for f in sorted(db.funcs.values(), key=lambda x: (x.file, x.line)):
+        if not f.body or f.file.startswith("libcds/") or f.cfg is None:
+            continue
+        for lv, w in written_lvalues(f):
+            tgt = access_path(f, lv)
+            if tgt is None or tgt[0] != "this" or w.get("op") != "=" or w.get("rhs") is None:
+                continue
+            r = strip(w["rhs"])
+            if r["k"] != "CXXMemberCallExpr" or callee_name(r) != "size" or r.get("obj") is None or not r.get("ext"):
+                continue
+            cont = access_path(f, r["obj"])
+            if cont is None:
+                continue
+            rep.visit(f)
+            rep.inst(f.nloc(w), "%s: %s = %s.size()" % (f.qn, fmt_path(f, tgt), fmt_path(f, cont)))
+            rep.ob()
+            pos = f.cfg.position(w)
+            retake = [f.cfg.position(w2) for lv2, w2 in written_lvalues(f) if access_path(f, lv2) == tgt and w2 is not w]
+            retake = [p for p in retake if p is not None]
+            for c in f.calls():
+                if c["k"] == "CXXMemberCallExpr" and c.get("ext") and callee_name(c) in SHRINKERS and c.get("obj") is not None and \
+                        access_path(f, c["obj"]) == cont:
+                    cp = f.cfg.position(c)
+                    if pos is not None and cp is not None and f.cfg.path_exists(pos, [cp], avoid=retake):
+                        rep.viol("%s#stale-%s" % (f.qn, tgt[-1]), f.nloc(c),
+                                 "%s stores %s.size() in %s and then shrinks the container with %s(): the stored bound exceeds the number of "
+                                 "valid elements, so the iterator walks past them (sentinel, stale values)" % (
+                                     f.qn, fmt_path(f, cont), fmt_path(f, tgt), callee_name(c)), f.qn)
+                        break
+
+
+CHUNK_START = {"c_chunk": 0, "c_valid": 0, "strLen": 0, "advanced": 0, "extracted": 1}
+
+
+@rule("R-CHUNKINIT", 4, "sibling agreement of the Hu-Tucker / Huffman chunk scans: every ChunkScan that a function creates and hands to the "
+                        "chunk decoder starts as (c_chunk, c_valid, strLen, advanced, extracted) = (0, 0, 0, 0, 1), however it is spelled "
+                        "(aggregate initialiser, `{}` plus assignments)")
+def r_chunkinit(db, rep):
+    for f in sorted(db.funcs.values(), key=lambda x: (x.file, x.line)):
+        if not f.body or f.file.startswith("libcds/"):
+            continue
+        for n in f.live_nodes():
+            if n["k"] != "DeclStmt":
+                continue
+            for d in n["decls"]:
+                t = f.types[d["t"]] if "t" in d else None
+                if not t or t.get("rec") != "ChunkScan" or "d" not in d:
+                    continue
+                si = strip(d["init"]) if d.get("init") is not None else None
+                if si is None:
+                    start = {}
+                elif si["k"] == "InitListExpr":
+                    fields = si.get("fields") or []
+                    inits = si.get("inits") or []
+                    start = {fn: (const_value(inits[i]) if i < len(inits) and inits[i] is not None else 0) for i, fn in enumerate(fields)}
+                    for fn in fields[len(inits):]:
+                        start[fn] = 0
+                else:
+                    continue            # produced by a call (decodeHeader): initialised there
+                # constant member assignments to this object in the same function (before it is used) complete the picture
+                for lv, w in written_lvalues(f):
+                    s = strip(lv)
+                    if s["k"] == "MemberExpr" and s.get("rec") == "ChunkScan" and access_path(f, s["base"]) == ("local", d["d"]) and \
+                            w.get("op") == "=" and const_value(w.get("rhs")) is not None and s["n"] not in start:
+                        start[s["n"]] = const_value(w["rhs"])
+                    elif s["k"] == "MemberExpr" and s.get("rec") == "ChunkScan" and access_path(f, s["base"]) == ("local", d["d"]) and \
+                            w.get("op") == "=" and const_value(w.get("rhs")) is not None and si is not None and si["k"] == "InitListExpr" and \
+                            not (si.get("inits")) :
+                        start[s["n"]] = const_value(w["rhs"])
+                rep.visit(f)
+                rep.inst(f.nloc(n), "%s creates a ChunkScan starting at %s" % (f.qn, {k: start.get(k) for k in CHUNK_START}))
+                for k, want in CHUNK_START.items():
+                    rep.ob()
+                    got = start.get(k)
+                    if got is None and si is None:
+                        got = "indeterminate"
+                    if got != want:
+                        rep.viol("%s#chunk-%s" % (f.qn, k), f.nloc(n),
+                                 "%s starts its ChunkScan with %s = %s where every sibling starts with %d: the chunk decoder's end-of-string / "
+                                 "carry-over logic is out of step from the first chunk on" % (f.qn, k, got, want), f.qn)
